@@ -499,4 +499,87 @@ theorem newCheckGo_none (folding nc : Nat) :
         rw [foldedSize_succ]
         exact newCheckGo_none folding nc k (depth + 1) (mdp1 / folding) h i (by omega) (by omega)
 
+theorem newCheckGo_honest (N r : Nat) (hN : 0 < N) :
+    ∀ (j depth : Nat), newCheckGo N (depth + j + 1) (j + 1) depth (N ^ j * r) = none := by
+  intro j
+  induction j with
+  | zero => intro depth; simp [newCheckGo]
+  | succ j ih =>
+    intro depth
+    have hdiv : N ^ (j + 1) * r % N = 0 := by
+      rw [Nat.pow_succ, Nat.mul_comm (N ^ j) N, Nat.mul_assoc]; exact Nat.mul_mod_right _ _
+    have hq : N ^ (j + 1) * r / N = N ^ j * r := by
+      rw [Nat.pow_succ, Nat.mul_comm (N ^ j) N, Nat.mul_assoc, Nat.mul_div_cancel_left _ hN]
+    rw [newCheckGo]
+    rw [if_neg (by rw [hdiv]; simp), hq]
+    have := ih (depth + 1)
+    rw [show depth + 1 + j + 1 = depth + (j + 1) + 1 by omega] at this
+    exact this
+
+/-- the degree check of `FriVerifier::new` passes for a bound `N^k·r − 1` and `k + 1` commitments -/
+theorem newCheck_honest (N r k : Nat) (hN : 0 < N) (hr : 0 < r) :
+    newCheck N (N ^ k * r - 1) (k + 1) = none := by
+  unfold newCheck
+  have hpos : 0 < N ^ k * r := Nat.mul_pos (Nat.pow_pos hN) hr
+  rw [show N ^ k * r - 1 + 1 = N ^ k * r by omega]
+  simpa using newCheckGo_honest N r hN k 0
+
+theorem nextPow2Go_two_pow (a : Nat) :
+    ∀ (fuel b : Nat), b ≤ a → a - b ≤ fuel → nextPow2Go (2 ^ a) fuel (2 ^ b) = 2 ^ a := by
+  intro fuel
+  induction fuel with
+  | zero =>
+    intro b hb hf
+    have : b = a := by omega
+    subst this; rfl
+  | succ f ih =>
+    intro b hb hf
+    rw [nextPow2Go]
+    by_cases hlt : b < a
+    · rw [if_pos (Nat.pow_lt_pow_right (by omega) hlt), ← Nat.pow_succ]
+      exact ih (b + 1) (by omega) (by omega)
+    · have : b = a := by omega
+      subst this
+      rw [if_neg (by omega)]
+
+/-- `next_power_of_two` fixes powers of two (in particular `(1 + 1).next_power_of_two() = 2`:
+the degree-1 bound) -/
+theorem nextPow2_two_pow (a : Nat) : nextPow2 (2 ^ a) = 2 ^ a := by
+  unfold nextPow2
+  have := nextPow2Go_two_pow a (2 ^ a) 0 (Nat.zero_le _) (by
+    have := @Nat.lt_two_pow_self a; omega)
+  simpa using this
+
+/-- a proof whose number of layers is not the number of commitments minus one is rejected with an
+error before anything is taken out of the channel (no panic) -/
+theorem newAndVerify_layer_count {F} (ops : FieldOps F) (o : FriOptions) (maxPolyDegree numPartitions : Nat)
+    (gOf : Nat → F) (offset : F) (alphas evaluations : List F) (positions : List Nat)
+    (openings : List (LayerOpening F)) (remainder : List F) (remainderOk : Bool)
+    (h : openings.length + 1 ≠ alphas.length) :
+    newAndVerify ops o maxPolyDegree numPartitions gOf offset alphas evaluations positions openings
+      remainder remainderOk = .err (.proofLayerCountMismatch (alphas.length - 1) openings.length) := by
+  unfold newAndVerify
+  rw [if_pos h]
+
+/-- with matching counts the loop never runs out of openings: the only way `verifyLoop` reaches its
+`[]` branch is fewer openings than iterations -/
+theorem verifyLoop_exhausted {F} (ops : FieldOps F) (v : Verifier F) :
+    ∀ (k depth : Nat) (st : LoopState F) (os : List (LayerOpening F)), k ≤ os.length →
+      verifyLoop ops v k depth st os = .abort →
+      ∃ (i : Nat) (s : LoopState F) (o : LayerOpening F), i < k ∧ os[i]? = some o ∧
+        verifyLayer ops v (depth + i) s o = .abort
+  | 0, _, _, _, _, h => by simp [verifyLoop] at h
+  | k + 1, depth, st, os, hlen, h => by
+    cases os with
+    | nil => simp at hlen
+    | cons o rest =>
+      simp only [verifyLoop] at h
+      split at h
+      · rename_i st1 h1
+        obtain ⟨i, s, o', hi, ho, ha⟩ := verifyLoop_exhausted ops v k (depth + 1) st1 rest (by simpa using hlen) h
+        exact ⟨i + 1, s, o', by omega, by simpa using ho, by rw [← Nat.add_assoc, Nat.add_right_comm]; exact ha⟩
+      · cases h
+      · rename_i h1
+        exact ⟨0, st, o, by omega, by simp, by simpa using h1⟩
+
 end Wf.Fri
